@@ -28,7 +28,8 @@ RULE = ("matrix of output scenarios (writer functions with str/Path targets; evo
         "least one target pre-exists")
 ASSUMPTIONS = ["audit events are delivered for every open/rename/remove/truncate issued from Python",
                "the appended --logfile is not an output kind of the statement"]
-ANSWERS = ["y", "n", "", "Y", "yes", " y", "<EOF>"]  # <EOF>: the prompt gets no answer (stdin at end of file)
+# <EOF>: the prompt gets no answer (stdin at end of file); <INT>: Ctrl+C while the question is pending
+ANSWERS = ["y", "n", "", "Y", "yes", " y", "<EOF>", "<INT>"]
 
 
 # ------------------------------------------------------------------ input data
@@ -333,7 +334,8 @@ def k_cell(run, case):
                          "no_warnings": no_warnings, "prompts": nprompts,
                          "events": [(e[1], os.path.basename(e[2])) for e in rec.events[:12]]})
         label = "%s [existing %s, answer %r, %s]" % (S.name, E, answer, "warnings off" if not confirm_on else "warnings on")
-        run.check(rB.exc is None or (answer == "<EOF>" and isinstance(rB.exc, EOFError)), "command does not crash", case,
+        run.check(rB.exc is None or (answer == "<EOF>" and isinstance(rB.exc, EOFError)) or
+                  (answer == "<INT>" and isinstance(rB.exc, KeyboardInterrupt)), "command does not crash", case,
                   "%s crashed: %r" % (label, rB.exc), key="crash")
         # S5: nothing written in place of / besides the expected outputs
         extra = sorted(set(after) - set(before) - set(OUT))
